@@ -3,6 +3,7 @@ import Driver.Codec
 import Driver.SegLog
 import Driver.Node
 import Driver.Conn
+import Driver.Repl
 open Lean
 
 /-- Dispatch one JSON case to the engine named in its "engine" field; the "id" field is echoed. -/
@@ -14,6 +15,7 @@ def dispatch (j : Json) : Json :=
     | .ok "seglog" => Driver.SegLog.handle j
     | .ok "node"   => Driver.Node.handle j
     | .ok "conn"   => Driver.Conn.handle j
+    | .ok "repl"   => Driver.Repl.handle j
     | .ok e        => Json.mkObj [("error", Json.str s!"unknown engine {e}")]
     | .error e     => Json.mkObj [("error", Json.str e)]
   ans.setObjVal! "id" id
